@@ -237,3 +237,55 @@ example :
   decide
 
 end Regatta.Props.C10History
+
+namespace Regatta.Props.C10History
+open Regatta Regatta.Fsm Regatta.Refine Regatta.History
+
+/-! ### non-vacuity of `c10_history_linearizable`: a concrete concurrent history meets every hypothesis -/
+
+def demoE1 : Entry := ⟨1, none, .put [97] ⟨#[1]⟩ false⟩
+def demoE2 : Entry := ⟨2, none, .put [97] ⟨#[2]⟩ true⟩
+def demoOut1 : Result := (Spec.applyEntry (absT []) demoE1).2
+def demoOut2 : Result := (Spec.applyEntry (Spec.applyEntry (absT []) demoE1).1 demoE2).2
+
+/-- client A puts `a` (time 0 … 10), client B overwrites it (20 … 30); client C reads `a` linearizably
+from time 5 to 25 - overlapping both - and is answered by a replica that had applied one entry -/
+def demoLog : List (WEntry Entry Result) :=
+  [{ pos := 1, cmd := demoE1, inv := 0, resp := some 10, out := demoOut1 },
+   { pos := 2, cmd := demoE2, inv := 20, resp := some 30, out := demoOut2 }]
+
+def demoRead : ROp ReadReq ReadResp :=
+  { req := .range { key := [97] }, inv := 5, resp := 25, seen := 1,
+    out := tableSpec.read (Spec.applyLog (absT []) [demoE1]).1 (.range { key := [97] }) }
+
+theorem demoWF : ∀ e ∈ [demoE1, demoE2], EntryWF e := by
+  intro e he
+  simp only [List.mem_cons, List.not_mem_nil, or_false] at he
+  rcases he with rfl | rfl <;> refine ⟨?_, by decide, by intro li h; cases h⟩ <;> simp [demoE1, demoE2, CmdWF]
+
+example : Linearizable tableSpec (absT []) demoLog [demoRead] := by
+  refine c10_history_linearizable demoLog [demoRead] ?_ ?_ ?_ ?_ (by decide)
+  · intro e he
+    simp only [demoLog, List.mem_cons, List.not_mem_nil, or_false] at he
+    rcases he with rfl | rfl
+    · exact demoWF demoE1 (by simp)
+    · exact demoWF demoE2 (by simp)
+  · intro r hr
+    simp only [List.mem_cons, List.not_mem_nil, or_false] at hr
+    subst hr
+    simp [demoRead, ReadWF]
+  · right
+    obtain ⟨db, n, h, _, _⟩ := update_refines [] wf_nil [demoE1, demoE2] (by simp) demoWF
+    exact ⟨db, n, h⟩
+  · intro r hr
+    simp only [List.mem_cons, List.not_mem_nil, or_false] at hr
+    subst hr
+    obtain ⟨db, hf, hw, ha⟩ := Regatta.Props.C01.c01_history_refines [[demoE1]]
+      (by intro b hb; simp only [List.mem_cons, List.not_mem_nil, or_false] at hb; subst hb
+          exact ⟨by simp, fun e he => demoWF e (by simp only [List.mem_cons, List.not_mem_nil, or_false] at he; simp [he])⟩)
+      [] wf_nil
+    refine ⟨db, ⟨[[demoE1]], by simp, by simp [demoRead, demoLog], hf⟩, ?_⟩
+    rw [fsmRead_refines db hw _ (by simp [demoRead, ReadWF]), ha]
+    rfl
+
+end Regatta.Props.C10History
